@@ -405,6 +405,8 @@ def cases(tier, seed):
     for part in range(8 if T else 2):
         add("pens_chain", part=part, n=4000 if T else 1500)
     for part in range(6 if T else 2):
+        add("multipen_degenerate", part=part, n=150 if T else 60)
+    for part in range(6 if T else 2):
         add("fonts", part=part, n=60 if T else 20)
     add("stored")
     if T:
@@ -736,6 +738,38 @@ def _chain_contours(rnd, mag, cubic=True):
     return rec
 
 
+def _tip_contours(rnd, mag):
+    """Quadratic outlines built junction by junction: at every on-curve point the outgoing handle is related to the
+    incoming one as smooth continuation (the on-curve point is then implied in TrueType), mirror image about the
+    horizontal or vertical through the point (lancet / heart / teardrop tips), the same point (cusp), or unrelated."""
+    rec = []
+    for _ in range(rnd.randrange(1, 3)):
+        x, y = rnd.uniform(-0.5, 0.5) * mag, rnd.uniform(-0.5, 0.5) * mag
+        rec.append(("moveTo", ((float(round(x)), float(round(y))),)))
+        hin = None
+        for _s in range(rnd.randrange(2, 7)):
+            step = rnd.choice([0.05, 0.1, 0.2]) * mag
+            rel = rnd.choice(["smooth", "mirror_h", "mirror_v", "same", "free"]) if hin is not None else "free"
+            dx, dy = (hin[0] - x, hin[1] - y) if hin is not None else (0.0, 0.0)
+            if rel == "smooth":
+                hx, hy = x - dx, y - dy
+            elif rel == "mirror_h":
+                hx, hy = x + dx, y - dy
+            elif rel == "mirror_v":
+                hx, hy = x - dx, y + dy
+            elif rel == "same":
+                hx, hy = x + dx, y + dy
+            else:
+                hx, hy = x + rnd.uniform(-1, 1) * step, y + rnd.uniform(-1, 1) * step
+            nx, ny = hx + rnd.uniform(-1, 1) * step, hy + rnd.uniform(-1, 1) * step
+            hx, hy, nx, ny = float(round(hx)), float(round(hy)), float(round(nx)), float(round(ny))
+            rec.append(("qCurveTo", ((hx, hy), (nx, ny))))
+            hin = (hx, hy)
+            x, y = nx, ny
+        rec.append(("closePath", ()) if rnd.random() < 0.7 else ("endPath", ()))
+    return rec
+
+
 def _judge_outline(ctx, func, opts, before, after, tol, mag, extra=None):
     """End-to-end: the converted outline stays inside the tolerance neighbourhood of the input outline, and vice versa."""
     a, b = _segs_of(before), _segs_of(after)
@@ -822,6 +856,129 @@ def drv_pens_chain(case, rnd, ctx):
             ctx.sample = {"chain_input": rec[:6], "tolerance": tol, "out_ops": [op for op, _ in out.value][:12]}
 
 
+def drv_multipen_degenerate(case, rnd, ctx):
+    """Masters that are compatible as drawn (same operations) but in which, in SOME masters only, a point
+    coincides with its neighbour or with the contour's start (collapsed segments are ordinary in condensed or
+    light masters).  Through Cu2QuMultiPen, with and without reverse_direction, every master must come out with
+    the same structure, and each within tolerance of its own input."""
+    from fontTools.pens.cu2quPen import Cu2QuMultiPen
+    from fontTools.pens.recordingPen import RecordingPen
+    from fontTools.cu2qu.errors import Error as Cu2QuError
+    for i in range(case["n"]):
+        mag = 1000.0
+        rec = _chain_contours(rnd, mag) if rnd.random() < 0.5 else _random_contours(rnd, mag, closed=True, super_bezier=False)
+        # make sure lines occur next to the start and the end of contours
+        rec2 = []
+        for op, args in rec:
+            rec2.append((op, args))
+            if op == "moveTo" and rnd.random() < 0.7:
+                x, y = args[0]
+                rec2.append(("lineTo", ((x + rnd.choice([30.0, 80.0]), y + rnd.choice([0.0, 40.0])),)))
+        rec = []
+        for k, (op, args) in enumerate(rec2):
+            if op in ("closePath", "endPath") and rnd.random() < 0.7 and rec2[k - 1][0] != "moveTo":
+                x, y = rec2[k - 1][1][-1]
+                rec.append(("lineTo", ((x + rnd.choice([-25.0, 60.0]), y + rnd.choice([15.0, -35.0])),)))
+            rec.append((op, args))
+        m = rnd.randrange(2, 4)
+        masters = [[(op, tuple(args)) for op, args in rec] for _ in range(m)]
+        kinds = set()
+        for mi in range(1, m) if rnd.random() < 0.8 else range(m):
+            mrec = masters[mi]
+            starts = [k for k, (op, _a) in enumerate(mrec) if op == "moveTo"]
+            for _c in range(rnd.randrange(1, 3)):
+                lines = [k for k, (op, _a) in enumerate(mrec) if op == "lineTo"]
+                if not lines:
+                    break
+                k = rnd.choice(lines)
+                st = max(s0 for s0 in starts if s0 < k)
+                how = rnd.choice(["on_previous", "on_start"])
+                if how == "on_previous":
+                    target = mrec[k - 1][1][-1]
+                    kinds.add("first" if k - 1 == st else "mid")
+                else:
+                    target = mrec[st][1][-1]
+                    kinds.add("closing" if mrec[k + 1][0] in ("closePath", "endPath") else "to_start")
+                mrec[k] = ("lineTo", (target,))
+        tol = rnd.choice([0.5, 1.0, 3.0])
+        for rev in (False, True):
+            outs = [RecordingPen() for _ in range(m)]
+            mp = Cu2QuMultiPen(outs, tol, reverse_direction=rev)
+            try:
+                with ctx.lib("Cu2QuMultiPen"):
+                    for k in range(len(rec)):
+                        op = rec[k][0]
+                        if op in ("closePath", "endPath"):
+                            getattr(mp, op)()
+                        else:
+                            getattr(mp, op)([mrec[k][1] for mrec in masters])
+            except Cu2QuError:
+                ctx.skip("cu2qu error")
+                continue
+            ctx.judged()
+            structs = [tuple(_structure(o.value)) for o in outs]
+            if len(set(structs)) != 1:
+                # cause, for the known-finding key: with reverse_direction, does the last on-curve point of a closed
+                # contour coincide with its first in some masters but not in others?
+                cause = "other"
+                if rev:
+                    for ci in range(sum(1 for op, _a in rec if op == "moveTo")):
+                        flags = set()
+                        for mrec in masters:
+                            conts, cur = [], None
+                            for op, args in mrec:
+                                if op == "moveTo":
+                                    cur = [args[-1]]
+                                    conts.append(cur)
+                                elif op in ("closePath", "endPath"):
+                                    cur.append(op)
+                                else:
+                                    cur.append(args[-1])
+                            c = conts[ci]
+                            if c[-1] == "closePath" and len(c) > 2:
+                                flags.add(c[-2] == c[0])
+                        if len(flags) == 2:
+                            cause = "reverse+closing-point-coincides-in-some-masters"
+                    if cause != "other":
+                        # does that coincidence explain the whole difference?  Move every closing point that sits on its
+                        # start a little and convert again: if the structures still differ, something else is wrong too
+                        moved = []
+                        for mrec in masters:
+                            mr, start = [], None
+                            for k, (op, args) in enumerate(mrec):
+                                if op == "moveTo":
+                                    start = args[-1]
+                                if op == "lineTo" and mrec[k + 1][0] == "closePath" and args[-1] == start:
+                                    args = ((start[0] + 7.0, start[1] + 11.0),)
+                                mr.append((op, args))
+                            moved.append(mr)
+                        outs2 = [RecordingPen() for _ in range(m)]
+                        mp2 = Cu2QuMultiPen(outs2, tol, reverse_direction=rev)
+                        try:
+                            for k in range(len(rec)):
+                                op = rec[k][0]
+                                if op in ("closePath", "endPath"):
+                                    getattr(mp2, op)()
+                                else:
+                                    getattr(mp2, op)([mr[k][1] for mr in moved])
+                            if len({tuple(_structure(o.value)) for o in outs2}) != 1:
+                                cause = "other"
+                        except Exception:
+                            pass
+                ctx.violation({"kind": "curve", "func": "Cu2QuMultiPen", "what": "masters converted together have different structures", "cause": cause},
+                              "Cu2QuMultiPen(reverse_direction=%s): compatible masters come out with different structures" % rev,
+                              {"reverse_direction": rev, "collapsed": sorted(kinds), "masters": [mr[:10] for mr in masters],
+                               "structures": [list(st) for st in structs][:3]})
+                continue
+            okm = True
+            for k in range(m):
+                okm = _judge_outline(ctx, "Cu2QuMultiPen", "degenerate master %d of %d reverse=%s" % (k, m, rev), masters[k], outs[k].value, tol, mag) and okm
+            if okm:
+                ctx.nontrivial("Cu2QuMultiPen/degenerate/rev%d/%s" % (rev, "+".join(sorted(kinds)) or "none"))
+        if i == 0:
+            ctx.sample = {"masters": m, "collapsed": sorted(kinds), "input_ops": [op for op, _ in rec][:14]}
+
+
 def drv_pens_e2e(case, rnd, ctx):
     """Whole outlines through the converting pens with every option; the oracle compares the drawn input with the
     recorded output geometrically (the per-call monitors cannot see a pen handing the wrong curve to the converter)."""
@@ -893,7 +1050,8 @@ def drv_pens_e2e(case, rnd, ctx):
             if okm:
                 ctx.nontrivial("Cu2QuMultiPen/e2e/m%d" % m)
         # quadratic outline to cubic
-        qrec = _chain_contours(rnd, mag, cubic=False) if rnd.random() < 0.7 else _random_contours(rnd, mag, cubic=False)
+        qk = rnd.random()
+        qrec = _tip_contours(rnd, mag) if qk < 0.4 else _chain_contours(rnd, mag, cubic=False) if qk < 0.8 else _random_contours(rnd, mag, cubic=False)
         allc = rnd.random() < 0.5
         revq = rnd.random() < 0.3
         out3 = RecordingPen()
